@@ -499,8 +499,11 @@ func (e *EdgeQuery) addResult(r EdgeQueryResult) {
 }
 
 func (e *EdgeQuery) maybeAddResult(shape Shape, shapeID, edgeID int32) {
-	if _, ok := e.testedEdges[ShapeEdgeID{shapeID, edgeID}]; e.avoidDuplicates && !ok {
-		return
+	if e.avoidDuplicates {
+		if _, ok := e.testedEdges[ShapeEdgeID{shapeID, edgeID}]; ok {
+			return
+		}
+		e.testedEdges[ShapeEdgeID{shapeID, edgeID}] = 1
 	}
 	edge := shape.Edge(int(edgeID))
 	dist := e.distanceLimit
